@@ -454,24 +454,32 @@ theorem linesFit_wrap_noeol (wrap : Bool) (t : Str) (col : Nat) (hcol : col ≤ 
 theorem noeol_all (s : Str) (h : ∀ c ∈ s, c ≠ 10 ∧ c ≠ 13) : s.all (fun x => !isEol x) = true := by
   rw [List.all_eq_true]; intro x hx; simp [isEol, (h x hx).1]
 
-/-- every presentation other than the text field -/
-theorem writeChar_presented_nontext (c : Ctx) (s : Str) (q : Bool) (out : Str) (c' : Ctx)
+/-- `Presented` by a presentation other than the text field -/
+def PresentedNT (dia : Dialect) (c : Ctx) (s : Str) (q : Bool) (out : Str) : Prop :=
+  ∃ (wrap : Bool) (p : Presentation) (s' : Str),
+    (out = wrapLf wrap ++ renderValue p s' ∧ admissible dia p s' = true ∧ (p = .text → wrap = true)
+    ∧ (∀ col, col ≤ c.lastColumn → linesFit col out = true)
+    ∧ (p ≠ .text → s' = s) ∧ (p = .text → Model.Decode.decodeText true true s' = s)
+    ∧ (p = .bare → q = false ∧ s.head? ≠ some 59 ∧ recommend s (!q) (!c.isCif1) LINE = .none)) ∧ p ≠ .text
+
+/-- every presentation other than the text field (whether or not a text field would have been allowed) -/
+theorem writeChar_presented_nt (c : Ctx) (s : Str) (q allowText : Bool) (out : Str) (c' : Ctx)
     (hok : okUnits (diaOf c) none s = true) (hcol : c.lastColumn ≤ LINE)
     (hd : (analyze s (!q) (!c.isCif1) LINE).delimLength ≠ 2)
-    (h : writeChar c s q true = .ok (out, c')) : Presented (diaOf c) c s q out := by
+    (h : writeChar c s q allowText = .ok (out, c')) : PresentedNT (diaOf c) c s q out := by
   have hv : ¬(c.isCif1 = true ∧ validate11 s = false) := by
-    intro hv; rw [writeChar_invalid c s q true hv] at h; cases h
+    intro hv; rw [writeChar_invalid c s q allowText hv] at h; cases h
   obtain ⟨hdel, hlen⟩ := analyze_delim s (!q) (!c.isCif1) LINE
   cases hrec : recommend s (!q) (!c.isCif1) LINE with
   | none =>
     have hd0 : (analyze s (!q) (!c.isCif1) LINE).delimLength = 0 := by rw [hlen, hrec]; rfl
-    rw [writeChar_delim0 c s q true hv hd0] at h
+    rw [writeChar_delim0 c s q allowText hv hd0] at h
     obtain ⟨hadm, hno, hne, h59, hmax⟩ := bare_admissible (diaOf c) s (!q) (!c.isCif1) LINE hok hrec
     rw [hmax] at h
     obtain ⟨c'', hout⟩ := writeUnquoted_out c s hne
     rw [hout] at h
     simp only [Except.ok.injEq, Prod.mk.injEq] at h
-    refine ⟨_, .bare, s, h.1.symm, hadm, (by intro e; cases e), ?_, (fun _ => rfl), (by intro e; cases e), ?_⟩
+    refine ⟨_, .bare, s, ⟨h.1.symm, hadm, (by intro e; cases e), ?_, (fun _ => rfl), (by intro e; cases e), ?_⟩, (by intro e; cases e)⟩
     · intro col hc
       rw [← h.1]
       exact linesFit_wrap_noeol _ s col (by omega) (noeol_all s hno)
@@ -480,14 +488,14 @@ theorem writeChar_presented_nontext (c : Ctx) (s : Str) (q : Bool) (out : Str) (
       exact ⟨by simpa using this, h59, hrec⟩
   | apos =>
     have hd1 : (analyze s (!q) (!c.isCif1) LINE).delimLength = 1 := by rw [hlen, hrec]; rfl
-    rw [writeChar_delim1 c s q true hv hd1] at h
+    rw [writeChar_delim1 c s q allowText hv hd1] at h
     obtain ⟨hadm, hno, hl, hren⟩ := quoted_admissible (diaOf c) s (!q) (!c.isCif1) LINE 39 .squote hok (Or.inl ⟨hrec, rfl, rfl⟩)
     have hq : (analyze s (!q) (!c.isCif1) LINE).delim.headD 0 = 39 := by rw [hdel, hrec]; rfl
     rw [hl, hq] at h
     obtain ⟨c'', hout⟩ := writeQuoted_out c s 39
     rw [hout] at h
     simp only [Except.ok.injEq, Prod.mk.injEq] at h
-    refine ⟨_, .squote, s, (by rw [hren]; exact h.1.symm), hadm, (by intro e; cases e), ?_, (fun _ => rfl), (by intro e; cases e), (by intro e; cases e)⟩
+    refine ⟨_, .squote, s, ⟨(by rw [hren]; exact h.1.symm), hadm, (by intro e; cases e), ?_, (fun _ => rfl), (by intro e; cases e), (by intro e; cases e)⟩, (by intro e; cases e)⟩
     intro col hc
     rw [← h.1]
     apply linesFit_wrap_noeol _ _ col (by omega)
@@ -496,14 +504,14 @@ theorem writeChar_presented_nontext (c : Ctx) (s : Str) (q : Bool) (out : Str) (
     decide
   | quot =>
     have hd1 : (analyze s (!q) (!c.isCif1) LINE).delimLength = 1 := by rw [hlen, hrec]; rfl
-    rw [writeChar_delim1 c s q true hv hd1] at h
+    rw [writeChar_delim1 c s q allowText hv hd1] at h
     obtain ⟨hadm, hno, hl, hren⟩ := quoted_admissible (diaOf c) s (!q) (!c.isCif1) LINE 34 .dquote hok (Or.inr ⟨hrec, rfl, rfl⟩)
     have hq : (analyze s (!q) (!c.isCif1) LINE).delim.headD 0 = 34 := by rw [hdel, hrec]; rfl
     rw [hl, hq] at h
     obtain ⟨c'', hout⟩ := writeQuoted_out c s 34
     rw [hout] at h
     simp only [Except.ok.injEq, Prod.mk.injEq] at h
-    refine ⟨_, .dquote, s, (by rw [hren]; exact h.1.symm), hadm, (by intro e; cases e), ?_, (fun _ => rfl), (by intro e; cases e), (by intro e; cases e)⟩
+    refine ⟨_, .dquote, s, ⟨(by rw [hren]; exact h.1.symm), hadm, (by intro e; cases e), ?_, (fun _ => rfl), (by intro e; cases e), (by intro e; cases e)⟩, (by intro e; cases e)⟩
     intro col hc
     rw [← h.1]
     apply linesFit_wrap_noeol _ _ col (by omega)
@@ -516,12 +524,12 @@ theorem writeChar_presented_nontext (c : Ctx) (s : Str) (q : Bool) (out : Str) (
     have hdia : diaOf c = .cif2 := by
       unfold diaOf; cases hc1 : c.isCif1 <;> simp [hc1] at htri ⊢
     rw [hdia] at hok ⊢
-    rw [writeChar_delim3 c s q true hv hd3] at h
+    rw [writeChar_delim3 c s q allowText hv hd3] at h
     have hq : (analyze s (!q) (!c.isCif1) LINE).delim.headD 0 = 39 := by rw [hdel, hrec]; rfl
     rw [hq] at h
     have hout := writeTripleQuoted_out c s _ _ 39 out c' h
     obtain ⟨hadm, hren, hfit⟩ := triple_admissible s (!q) (!c.isCif1) 39 .tsquote hok (Or.inl ⟨hrec, rfl, rfl⟩)
-    refine ⟨_, .tsquote, s, (by rw [hren]; exact hout), hadm, (by intro e; cases e), ?_, (fun _ => rfl), (by intro e; cases e), (by intro e; cases e)⟩
+    refine ⟨_, .tsquote, s, ⟨(by rw [hren]; exact hout), hadm, (by intro e; cases e), ?_, (fun _ => rfl), (by intro e; cases e), (by intro e; cases e)⟩, (by intro e; cases e)⟩
     intro col hc
     rw [hout]
     apply hfit c.lastColumn col _ hc hcol
@@ -534,12 +542,12 @@ theorem writeChar_presented_nontext (c : Ctx) (s : Str) (q : Bool) (out : Str) (
     have hdia : diaOf c = .cif2 := by
       unfold diaOf; cases hc1 : c.isCif1 <;> simp [hc1] at htri ⊢
     rw [hdia] at hok ⊢
-    rw [writeChar_delim3 c s q true hv hd3] at h
+    rw [writeChar_delim3 c s q allowText hv hd3] at h
     have hq : (analyze s (!q) (!c.isCif1) LINE).delim.headD 0 = 34 := by rw [hdel, hrec]; rfl
     rw [hq] at h
     have hout := writeTripleQuoted_out c s _ _ 34 out c' h
     obtain ⟨hadm, hren, hfit⟩ := triple_admissible s (!q) (!c.isCif1) 34 .tdquote hok (Or.inr ⟨hrec, rfl, rfl⟩)
-    refine ⟨_, .tdquote, s, (by rw [hren]; exact hout), hadm, (by intro e; cases e), ?_, (fun _ => rfl), (by intro e; cases e), (by intro e; cases e)⟩
+    refine ⟨_, .tdquote, s, ⟨(by rw [hren]; exact hout), hadm, (by intro e; cases e), ?_, (fun _ => rfl), (by intro e; cases e), (by intro e; cases e)⟩, (by intro e; cases e)⟩
     intro col hc
     rw [hout]
     apply hfit c.lastColumn col _ hc hcol
@@ -548,5 +556,13 @@ theorem writeChar_presented_nontext (c : Ctx) (s : Str) (q : Bool) (out : Str) (
     split at hw <;> omega
   | text =>
     exfalso; apply hd; rw [hlen, hrec]; rfl
+
+/-- every presentation other than the text field -/
+theorem writeChar_presented_nontext (c : Ctx) (s : Str) (q : Bool) (out : Str) (c' : Ctx)
+    (hok : okUnits (diaOf c) none s = true) (hcol : c.lastColumn ≤ LINE)
+    (hd : (analyze s (!q) (!c.isCif1) LINE).delimLength ≠ 2)
+    (h : writeChar c s q true = .ok (out, c')) : Presented (diaOf c) c s q out := by
+  obtain ⟨wrap, p, s', hp, _⟩ := writeChar_presented_nt c s q true out c' hok hcol hd h
+  exact ⟨wrap, p, s', hp⟩
 
 end CifModel.Lemmas.WriterLex
